@@ -51,6 +51,32 @@ theorem inv_step {g g' : Gc} {op : Op} (inv : Inv g) (wt : g.wellTyped op = true
     obtain ⟨g2, h2, _, i2, _⟩ := collect_spec (gp := 0) il wt hpos
     simp only [Gc.apply, runOmfalos_eq] at h
     rw [h2] at h; cases h; exact i2
+  | run st gp =>
+    simp only [Gc.apply] at h
+    unfold Gc.run at h
+    split at h
+    · simp only [Gc.wellTyped, Bool.and_eq_true, decide_eq_true_eq] at wt
+      obtain ⟨g2, h2, _, i2, _⟩ := collect_spec il wt.1 wt.2
+      rw [h2] at h; cases h; exact i2
+    · cases h; exact ⟨fl, il⟩
+
+/-- `gc_run` with the 80 % trigger: either it leaves at least a fifth of the heap
+unallocated, or it has just collected and exactly the live cells remain -/
+theorem run_headroom {g g' : Gc} {st : List Slot} {gp : Nat} (inv : Inv g)
+    (wt : g.wellTyped (.run st gp) = true) (h : g.run st gp = some g') :
+    Inv g' ∧ ((5 * g'.cur.length < 4 * g'.mem.size ∧ g' = g) ∨
+      (∀ x, x ∈ g'.cur ↔ x ∈ g.cur ∧ Live g.mem (allRoots st gp) x)) := by
+  unfold Gc.run at h
+  split at h
+  · obtain ⟨fl, il⟩ := inv
+    simp only [Gc.wellTyped, Bool.and_eq_true, decide_eq_true_eq] at wt
+    obtain ⟨g2, h2, _, i2, _, _, c2, _⟩ := collect_spec il wt.1 wt.2
+    rw [h2] at h; cases h
+    exact ⟨i2, Or.inr c2⟩
+  · rename_i hw
+    cases h
+    refine ⟨inv, Or.inl ⟨?_, rfl⟩⟩
+    simpa [Gc.wantsCollect] using hw
 
 /-- **the invariant holds after every history** (all op sequences, all lengths) -/
 theorem inv_history (n : Nat) (h : 2 ≤ n) (ops : List Op) : Inv ((Gc.new n).exec ops) := by
